@@ -27,7 +27,10 @@ def run(ctx):
     sel = ctx.tlc("PageSelectMC", "PageSelect_gen.cfg" if q else "PageSelect_gen_thorough.cfg", workers=1, collect=True, timeout=1800)
     selo = ctx.tlc("PageSelectMC", "PageSelect_gen_opts.cfg", workers=1, collect=True, timeout=1800)
     life = ctx.tlc("LifecycleMC", "Lifecycle_gen.cfg" if q else "Lifecycle_gen_thorough.cfg", workers=1, collect=True, count=False, timeout=1800)
-    if not sel["cases"] or not life["cases"]:
+    # every history of three operations with every public operation by name (15 terminal, 3 non-terminal ones)
+    via = ctx.tlc("LifecycleMC", "Lifecycle_gen_via.cfg", workers=1, collect=True, count=False, timeout=1800)
+    ctx.extra["lifecycle_histories_by_operation"] = len(via["cases"])
+    if not sel["cases"] or not life["cases"] or not via["cases"]:
         raise vlib.MachineryError("no cases")
     ctx.exhaustive = True
     ctx.extra["selection_cases"] = len(sel["cases"])
@@ -35,9 +38,9 @@ def run(ctx):
     ctx.sample(sel["cases"][len(sel["cases"]) // 2])
     ctx.sample(life["cases"][len(life["cases"]) // 2])
     r1 = absorb(ctx, ctx.run_driver(["c10", "select"], sel["cases"]))
-    r2 = absorb(ctx, ctx.run_driver(["c10", "life"], life["cases"]))
+    r2 = absorb(ctx, ctx.run_driver(["c10", "life"], life["cases"] + via["cases"]))
     # the option-only histories again on a document of every other format (descriptor accounting, no panic)
-    r1 += absorb(ctx, ctx.run_driver(["c10", "lifefmt"], life["cases"]))
+    r1 += absorb(ctx, ctx.run_driver(["c10", "lifefmt"], life["cases"] + (via["cases"][::7] if q else via["cases"])))
     ctx.extra["selection_cases_under_options"] = len(selo["cases"])
     r1 += absorb(ctx, ctx.run_driver(["c10", "selectopts"], selo["cases"]))
     mach = [r for r in r1 + r2 if (r.get("sig") or "").startswith("MACHINERY")]
